@@ -445,7 +445,17 @@ def rule_views(run):
     views.run_rule(run, "F-VIEW")   # the helpers slice their operands: a slice of a slice must address the right bits
 
 
-RULES = [rule_fold, rule_layout, rule_first, rule_width, rule_mask, rule_crc, rule_choose_first, rule_views]
+def rule_tracer(run):
+    from . import c02
+    c02.rule_tracer_tables(run)   # min/max helpers compare with `<`/`>`: a constant on the left uses the mirrored operator
+
+
+def rule_replacements(run):
+    from . import c02
+    c02.rule_rows(run)            # one_hot / shifts are emitted through the operator replacements
+
+
+RULES = [rule_fold, rule_layout, rule_first, rule_width, rule_mask, rule_crc, rule_choose_first, rule_views, rule_tracer, rule_replacements]
 LEVEL = "other"
 EXPLANATION = (
     "The std helpers are interpreted abstractly (sa/absint.py walks their ASTs; cohdl is never imported) over symbolic "
